@@ -247,8 +247,8 @@ def _to_stiefel_euler_real(theta, dim, rank):
                 zi = []
                 tmp0 = 0*ret[:,0], ret[:,0]
                 for indI in range(N0):
-                    zi.append(ct[:,indI]*tmp0[0] - st[:,indI]*tmp0[1])
-                    tmp1 = ct[:,indI]*tmp0[1] + st[:,indI]*tmp0[0]
+                    zi.append(ct[:,indI:indI+1]*tmp0[0] - st[:,indI:indI+1]*tmp0[1])
+                    tmp1 = ct[:,indI:indI+1]*tmp0[1] + st[:,indI:indI+1]*tmp0[0]
                     if indI+1 < N0:
                         tmp0 = tmp1, ret[:,indI+1]
                     else:
@@ -267,8 +267,8 @@ def _to_stiefel_euler_real(theta, dim, rank):
                 zi = []
                 tmp0 = 0*ret[:,0], ret[:,0]
                 for indI in range(N0):
-                    zi.append(ct[:,indI]*tmp0[0] - st[:,indI]*tmp0[1])
-                    tmp1 = ct[:,indI]*tmp0[1] + st[:,indI]*tmp0[0]
+                    zi.append(ct[:,indI:indI+1]*tmp0[0] - st[:,indI:indI+1]*tmp0[1])
+                    tmp1 = ct[:,indI:indI+1]*tmp0[1] + st[:,indI:indI+1]*tmp0[0]
                     if indI+1 < N0:
                         tmp0 = tmp1, ret[:,indI+1]
                     else:
@@ -303,8 +303,8 @@ def _to_stiefel_euler_complex(theta, dim, rank, with_phase):
                 zi = []
                 tmp0 = 0*ret[:,0], ret[:,0]
                 for indI in range(N0):
-                    zi.append((ct[:,indI]/expp[:,indI])*tmp0[0] - (st[:,indI]/expp[:,indI])*tmp0[1])
-                    tmp1 = (ct[:,indI]*expp[:,indI])*tmp0[1] + (st[:,indI]*expp[:,indI])*tmp0[0]
+                    zi.append((ct[:,indI:indI+1]/expp[:,indI:indI+1])*tmp0[0] - (st[:,indI:indI+1]/expp[:,indI:indI+1])*tmp0[1])
+                    tmp1 = (ct[:,indI:indI+1]*expp[:,indI:indI+1])*tmp0[1] + (st[:,indI:indI+1]*expp[:,indI:indI+1])*tmp0[0]
                     if indI+1 < N0:
                         tmp0 = tmp1, ret[:,indI+1]
                     else:
@@ -328,8 +328,8 @@ def _to_stiefel_euler_complex(theta, dim, rank, with_phase):
                 zi = []
                 tmp0 = 0*ret[:,0], ret[:,0]
                 for indI in range(N0):
-                    zi.append((ct[:,indI]/expp[:,indI])*tmp0[0] - (st[:,indI]/expp[:,indI])*tmp0[1])
-                    tmp1 = (ct[:,indI]*expp[:,indI])*tmp0[1] + (st[:,indI]*expp[:,indI])*tmp0[0]
+                    zi.append((ct[:,indI:indI+1]/expp[:,indI:indI+1])*tmp0[0] - (st[:,indI:indI+1]/expp[:,indI:indI+1])*tmp0[1])
+                    tmp1 = (ct[:,indI:indI+1]*expp[:,indI:indI+1])*tmp0[1] + (st[:,indI:indI+1]*expp[:,indI:indI+1])*tmp0[0]
                     if indI+1 < N0:
                         tmp0 = tmp1, ret[:,indI+1]
                     else:
